@@ -47,6 +47,7 @@ func runC02M(k *kernel.K) {
 	plans := map[int]*c02Plan{}
 	var mu sync.Mutex
 	var calls []*c02Call
+	connectReqs := map[string]*http.Request{}
 	record := func(c *c02Call) {
 		mu.Lock()
 		calls = append(calls, c)
@@ -72,6 +73,20 @@ func runC02M(k *kernel.K) {
 			}
 		}
 		record(c)
+		if req.Method == "CONNECT" {
+			mu.Lock()
+			connectReqs[req.RemoteAddr] = req
+			mu.Unlock()
+		} else {
+			// the CONNECT exchange of this connection ended when its 200 was written: its context
+			// must not be retrievable any more while the requests inside the tunnel are handled
+			mu.Lock()
+			cr := connectReqs[req.RemoteAddr]
+			mu.Unlock()
+			if cr != nil && martian.NewContext(cr) != nil {
+				k.Fail("C02.ctx_released", map[string]string{"mode": "mitm", "when": "during_tunnelled_exchange"}, "while decrypted exchange #%d is in its request modifier a context is still retrievable for the CONNECT request of the same connection, whose exchange ended when its response was written", id)
+			}
+		}
 		p := plans[id]
 		defer func() {
 			c.retStep = k.StepN
